@@ -51,4 +51,97 @@ def fam_life(seed, i):
     return sc
 
 
-FAMILIES = {"core": fam_core, "life": fam_life}
+def fam_fail(seed, i):
+    """C06 C02: every kind of actor failure at every position relative to pending operations."""
+    rng = random.Random(f"fail-{seed}-{i}")
+    sc = base("fail", seed, i, rng, horizon=12)
+    owning = rng.random() < 0.5
+    fault = rng.choice(["start_err", "start_panic", "handler_panic", "stopped_panic", "cancel", "timeout", "cancel", "handler_panic", "none"])
+    cfg = {"cap": rng.choice([-1, -1, 0, 1, 2]), "pscr": [Y] * rng.choice([0, 1]), "sscr": [[Y] * rng.choice([0, 1])], "owning": owning}
+    if fault == "start_err":
+        cfg["sscr"] = [[Y] * rng.choice([0, 1]) + [eff("err")]]
+    elif fault == "start_panic":
+        cfg["sscr"] = [[Y] * rng.choice([0, 1]) + [eff("panic")]]
+    elif fault == "stopped_panic":
+        cfg["pscr"] = [Y] * rng.choice([0, 1]) + [eff("panic")]
+    elif fault == "timeout":
+        cfg["tmo"] = 2
+        cfg["failto"] = True
+    if fault == "cancel":
+        sc["cancels"] = 1
+        sc["cancel_pct"] = rng.choice([5, 10, 25])
+    ncl = rng.randint(1, 4)
+    names = [f"c{k+1}" for k in range(ncl)]
+    kinds = {c: rng.choice(ALLKINDS) for c in names}
+    if owning:
+        kinds[rng.choice(names)] = "owning"
+    main, handles = setup_main(rng, cfg, kinds, rng.random() < 0.5)
+    sc["clients"]["main"] = main
+    w = {"send": 5, "call": 6, "ping": 2, "yield": 3, "clone": 1, "drop": 1, "stop": 1, "halt": 0.7, "try_halt": 0.5,
+         "await": 1.5, "await_ref": 1, "stopped": 2, "running": 1, "upgrade": 1.5, "join": 2, "consume": 0.7, "consume_sync": 0.5, "sleep": 1}
+    scripts = [[], [Y], [Y, Y]]
+    if fault == "handler_panic":
+        scripts += [[eff("panic")], [Y, eff("panic")]]
+    if fault == "timeout":
+        scripts += [[eff("sleep", 1)], [eff("sleep", 3)], [eff("sleep", 4)], [Y, eff("sleep", 3)]]
+    if fault == "stopped_panic":
+        scripts += [[eff("ctx_stop")]]
+        w["stop"] = 3
+    cnt = [0]
+    for c in names:
+        sc["clients"][c] = Prog(rng, c, handles.get(c, {}), w, scripts, cnt).run(rng.randint(1, 7))
+    return sc
+
+
+def fam_restart(seed, i):
+    """C07: restart requests through Addr::restart and Context::restart, all strategies."""
+    rng = random.Random(f"restart-{seed}-{i}")
+    sc = base("restart", seed, i, rng, horizon=10)
+    strat = rng.choice(["restart", "restart", "recreate", "recreate", "none"])
+    sscr = [[Y] * rng.choice([0, 1])]
+    r = rng.random()
+    if r < 0.15:
+        sscr.append([eff("err")])
+    elif r < 0.25:
+        sscr += [[Y], [Y, eff("err")]]
+    elif r < 0.5:
+        sscr.append([Y])
+    cfg = {"cap": rng.choice([-1, -1, 0, 1, 2]), "strat": strat, "pscr": [Y] * rng.choice([0, 1]), "sscr": sscr, "owning": rng.random() < 0.4}
+    ncl = rng.randint(1, 3)
+    names = [f"c{k+1}" for k in range(ncl)]
+    kinds = {c: rng.choice(["addr", "addr", "sender", "caller", "waddr"]) for c in names}
+    if cfg["owning"]:
+        kinds[rng.choice(names)] = "owning"
+    main, handles = setup_main(rng, cfg, kinds, True)
+    sc["clients"]["main"] = main
+    w = {"send": 5, "call": 6, "restart": 3, "yield": 3, "clone": 0.5, "stop": 0.7, "upgrade": 1, "join": 1, "await": 0.5, "stopped": 0.5}
+    scripts = [[], [Y], [eff("ctx_restart")], [Y, eff("ctx_restart")], []]
+    cnt = [0]
+    for c in names:
+        sc["clients"][c] = Prog(rng, c, handles.get(c, {}), w, scripts, cnt).run(rng.randint(2, 8))
+    return sc
+
+
+def fam_timeout(seed, i):
+    """C11: handler durations around the configured timeout on the virtual clock."""
+    rng = random.Random(f"timeout-{seed}-{i}")
+    sc = base("timeout", seed, i, rng, horizon=60)
+    sc["idle_only"] = rng.random() < 0.7
+    t = rng.choice([0, 2, 3, 3, 4])
+    cfg = {"cap": rng.choice([-1, -1, 1, 2]), "tmo": t, "failto": t > 0 and rng.random() < 0.3, "pscr": [Y] * rng.choice([0, 1]), "owning": rng.random() < 0.3}
+    ncl = rng.randint(1, 3)
+    names = [f"c{k+1}" for k in range(ncl)]
+    kinds = {c: rng.choice(["addr", "addr", "sender", "caller"]) for c in names}
+    if cfg["owning"]:
+        kinds[names[0]] = "owning"
+    main, handles = setup_main(rng, cfg, kinds, True)
+    sc["clients"]["main"] = main
+    w = {"send": 5, "call": 7, "yield": 1, "sleep": 1, "stop": 0.5, "join": 0.5, "ping": 1}
+    scripts = [[]] + [[eff("sleep", d)] for d in range(1, 7)] + [[Y, eff("sleep", 2)], [eff("sleep", 1), eff("sleep", 2)], [eff("sleep", 5), Y]]
+    cnt = [0]
+    for c in names:
+        sc["clients"][c] = Prog(rng, c, handles.get(c, {}), w, scripts, cnt).run(rng.randint(2, 7))
+    return sc
+
+
+FAMILIES = {"core": fam_core, "life": fam_life, "fail": fam_fail, "restart": fam_restart, "timeout": fam_timeout}
